@@ -38,6 +38,7 @@ struct target
     virtual bool assign_into_moved_from() = 0;
     virtual void destroy() = 0;
     virtual void report_reserved() = 0;
+    virtual bool reserve(std::size_t size, std::size_t capacity) = 0;     // collections only; false: the target has no reserve()
 };
 
 template <class A, class Make>
@@ -64,6 +65,9 @@ struct target_impl : target
     }
     template <class T> static void resv_impl(T&, long) {}
     void report_reserved() override { resv_impl(*a, 0); }
+    template <class T> static auto reserve_impl(T& t, std::size_t size, std::size_t cap, int) -> decltype(t.reserve(size, cap), bool()) { t.reserve(size, cap); return true; }
+    template <class T> static bool reserve_impl(T&, std::size_t, std::size_t, long) { return false; }
+    bool reserve(std::size_t size, std::size_t capacity) override { return reserve_impl(*a, size, capacity, 0); }
     template <class T> static auto caps_impl(T& t, std::size_t size, int) -> decltype(t.pool_capacity_left(size), std::string())
     {
         char b[128];
@@ -256,6 +260,12 @@ int main()
             res = r ? "true" : "false";
         }
         else if (op == "q") { std::size_t s = 1; is >> s; qsize = s ? s : 1; res = "q"; }
+        else if (op == "rs")
+        {   // memory_pool_collection::reserve(node_size, capacity)
+            std::size_t size = 8, cap = 0; is >> size >> cap; qsize = size; const char* e = nullptr; bool done = false;
+            try { done = t->reserve(size, cap); } catch (...) { e = classify_current(); }
+            res = e ? std::string("throw ") + e : done ? "reserved" : "none";
+        }
         else if (op == "fail") { long k; is >> k; U.fail_at = U.calls + k; res = "set"; }
         else if (op == "failfrom") { long k; is >> k; U.fail_from = k < 0 ? -1 : U.calls + k; res = "set"; }
         else if (op == "mv") { t->move_construct(); res = "moved reports=" + leak_list(); }
